@@ -22,9 +22,11 @@ IMPORTS = PL.IMPORTS
 def make_loop(seed_tuple, eidx):
     rng = np.random.default_rng(list(seed_tuple))
     E = PL._entries()[eidx]
-    lab = str(rng.choice(["cold", "half", "one_left", "few"]))
-    X, y, y_true, classes, labeling = R.gen_data(rng, E.task, n=int(rng.integers(6, 12)), binary=E.binary, cold=lab)
-    oracle = str(rng.choice(["true", "constant", "alternating"]))
+    lab = str(rng.choice(["cold", "half", "one_left", "few", "one_class"]))
+    # mostly tiny pools (many cycles are cheap), a quarter of the loops on tutorial-sized pools for the fast strategies
+    n = int(rng.integers(6, 12)) if (E.slow or rng.random() < 0.75) else int(rng.integers(16, 27))
+    X, y, y_true, classes, labeling = R.gen_data(rng, E.task, n=n, binary=E.binary, cold=lab)
+    oracle = str(rng.choice(["true", "true", "constant", "alternating"]))
     if oracle == "constant":
         y_true = np.zeros(len(y)) if E.task == "clf" else np.full(len(y), 1.5)
     elif oracle == "alternating":
@@ -57,6 +59,8 @@ def _run_loop(lp):
             out["batches"].append(il)
             k = min(lp["b"], len(unl))
             if idx.ndim != 1 or len(il) != k or len(set(il)) != len(il) or not set(il) <= unl:
+                out["c01kind"] = ("shape" if idx.ndim != 1 else "batch_length" if len(il) != k else
+                                  "duplicate_index" if len(set(il)) != len(il) else "non_candidate")
                 out["problem"] = ("invalid_batch", f"cycle {cyc}: returned {il} (shape {idx.shape}); unlabeled {sorted(unl)}, batch_size {lp['b']}")
                 return
             y[il] = lp["y_true"][il]
@@ -81,7 +85,7 @@ def run(ctx):
     entries = PL._entries()
     loops = []
     for ei, E in enumerate(entries):
-        for h in range((3 if E.slow else 12) if ctx.is_quick else (15 if E.slow else 80)):
+        for h in range(((2 if E.slow else 10) if E.variant else (3 if E.slow else 40)) if ctx.is_quick else (15 if E.slow else 300)):
             loops.append(make_loop((ctx.seed, ei, h, 1414), ei))
     outs = pmap(_run_loop, loops, chunksize=1)
     terms, meta = [], []
